@@ -63,7 +63,7 @@ CLAIMED = {
     'C11': dict(
         technique='Lean 4 iff theorem between get_shape (model) and the spelled-out acceptance conditions + soundness corollaries + refutation of the full-strength claim (F13) + sub-multiset search',
         text='get_shape is proved to accept iff: non-empty, counts factor, spacing test passes, every volume block lists exactly the sorted distinct positions, every vector block is constant; hence n = S*T*V and each refusal condition of the property gives invalid. The claim that every volume has one time ordinate is refuted by a kernel-checked witness (F13). A complete regular S x T x V grid added in any order is proved accepted with shape (S,T,V) (accept_complete, accept_complete_order, unbounded). Sub-multisets (drop one/two, duplicate, drop volume/position, irregular gap), add-time refusals and the four queries are run on the implementation; model and implementation agree on acceptance, dims and canonical order.',
-        design='DESIGN.md §7 C11', note=BASE_NOTE + ' That a complete regular grid is accepted for every add order is a theorem (accept_complete_order); key guessing is not in the model.'),
+        design='DESIGN.md §7 C11', note=BASE_NOTE + ' That a complete regular grid is accepted for every add order is a theorem (accept_complete_order); the key-guessing loop of get_shape is modelled (guessShape), proved to pick only keys under which the stack is a complete grid, and compared with the implementation.'),
     'C12': dict(
         technique='Lean 4 invariant proof over all op histories of the stack state machine (sort is a function of the multiset) + byte comparison of histories and hash seeds on the implementation',
         text='For every add order and every finite history of get_shape/get_data/get_affine/to_nifti the file order a call builds its output from is proved to be a function of the file set and the call (history_independent), by an invariant over the dirty flag and permutation invariance of the two-stage sort. On the implementation random and targeted histories and add permutations are compared byte-wise with a fresh stack, and the same series is converted in processes with different PYTHONHASHSEED.',
@@ -82,7 +82,7 @@ CLAIMED = {
         design='DESIGN.md §7 C09', note=BASE_NOTE + ' CPython json lexing and float repr, zlib and nibabel I/O are trusted; there is no character-level parser in the model.'),
     'C15': dict(
         technique='Lean 4 theorems about the executable model of MetaExtractor.__call__ over abstracted elements + key-list correspondence + value oracle',
-        text='For every dataset, translator set and rule set: each element yields at most one standard entry, only if non-blank, non-ignored and with a value, entries keep dataset order; under the extracted default rules no entry has an odd group, the pixel-data tag, an overlay-data tag or a colour-LUT tag (private data only through translators). The ordered key list of the model equals the implementation on generated datasets (all common VRs/VMs, nested sequences, private blocks, name clashes, four configurations); values, JSON-serialisability, determinism and pixel purity are checked by the oracle.',
+        text='For every dataset, translator set and rule set: each element yields at most one standard entry, only if non-blank, non-ignored and with a value, entries keep dataset order; under the extracted default rules no entry has an odd group, one of the pixel-data tags the translator reads out of ignore_pixel_data (PixelData, FloatPixelData, DoubleFloatPixelData), an overlay-data tag or a colour-LUT tag (private data only through translators). The ordered key list of the model equals the implementation on generated datasets (all common VRs/VMs, nested sequences, private blocks incl. parseable CSA headers, private / standard name clashes, seven configurations incl. explicitly empty translators and a user ignore rule); values, JSON-serialisability, determinism and pixel purity are checked by the oracle.',
         design='DESIGN.md §7 C15', note=BASE_NOTE + ' pydicom and the CSA reader are parameters; the abstraction of elements is computed by the harness. Injectivity of suffixed keys is checked on generated data only.'),
     'C18': dict(
         technique='Lean 4 theorems about the first-fit grouping model (partition, order independence via a loop invariant, fault isolation by list surgery, strict raise) + directory-level correspondence and oracle',
